@@ -105,6 +105,45 @@ partial def admissibleFirst (E : Env) (d : Decl) (co : COpts) : List String :=
       dedup ((DOps.subs E ops b0).flatMap (fun p => admissibleFirst E p.1 p.2))
     else [kindName oc]
 
+def insertAll {α : Type} (x : α) : List α → List (List α)
+  | [] => [[x]]
+  | y :: ys => (x :: y :: ys) :: (insertAll x ys).map (y :: ·)
+
+def perms {α : Type} : List α → List (List α)
+  | [] => [[]]
+  | x :: xs => (perms xs).flatMap (insertAll x)
+
+/-- (can be accepted, can be refused): the first Compile with `co`, over every order in which
+    `Workflow.compile` may replay the recorded inputs (Go map iteration), at every nesting level.
+    Only used to tell the harness which cases the order matters for. -/
+partial def possible (E : Env) (j : Json) (co : COpts) : JE (Bool × Bool) := do
+  let inT ← parseTy (← J.str j "inT")
+  let outT ← parseTy (← J.str j "outT")
+  match J.strD j "api" "graph" with
+  | "workflow" =>
+    let njs := J.arrD j "nodes"
+    let nodes ← njs.mapM parseWfNode
+    let endIns ← (J.arrD j "endIn").mapM parseIn
+    let branches ← (J.arrD j "branches").mapM fun b => do
+      pure ({ src := (← J.str b "s"), ty := (← parseTy (← J.str b "t")), ends := (← J.strList b "ends") } : WfBranch)
+    let d : WfDecl := { inT, outT, stateTy := optState j, nodes, endIns, branches }
+    let kids ← (njs.filter (fun n => match n.getObjVal? "sub" with | .ok (.obj _) => true | _ => false)).mapM
+      (fun n => do possible E (← n.getObjVal? "sub") (parseSubOpts n))
+    let r := DOps.build E (wfNodeOps d.nodes) (Builder.new .workflow inT outT (optState j))
+    let allOk := List.replicate r.2.length Outcome.ok
+    let orders := if d.nodes.length ≤ 4 then perms (List.range (d.nodes.length + 1)) else [List.range (d.nodes.length + 1)]
+    let outs := orders.map fun o =>
+      (attempt E r.1 (d.branchOps ++ d.inputOpsBy o) (d.guard Expected.C20.wfBranchEndsChecked) co allOk).2.isOk
+    pure (outs.any id && kids.all (·.1), outs.any (!·) || kids.any (·.2))
+  | _ =>
+    let ojs := J.arrD j "ops"
+    let ops ← parseDOps ojs
+    let kids ← (ojs.filter (fun n => J.strD n "op" "" == "sub")).mapM
+      (fun n => do possible E (← n.getObjVal? "sub") (parseSubOpts n))
+    let r := DOps.build E ops (Builder.new .graph inT outT (optState j))
+    let ok := (attempt E r.1 [] none co (List.replicate r.2.length Outcome.ok)).2.isOk
+    pure (ok && kids.all (·.1), !ok || kids.any (·.2))
+
 def handle (c : Json) : JE Json := do
   let im ← parseImpl c
   let d ← parseDecl (← c.getObjVal? "decl")
@@ -114,7 +153,10 @@ def handle (c : Json) : JE Json := do
   let kidKinds : List String := match d with
     | .mk cmp i o st ops _ _ _ =>
       dedup ((DOps.subs E ops (Builder.new cmp i o st)).flatMap (fun p => admissibleFirst E p.1 p.2))
+  let poss ← cos.mapM (possible E (← c.getObjVal? "decl"))
+  let sensitive := poss.any (fun p => p.1 && p.2)
   pure <| Json.mkObj [
+    ("sensitive", Json.bool sensitive),
     ("out", J.mkStrs (res.map (fun r => outcomeStr r.1))),
     ("kinds", J.mkArr (res.map (fun r => J.mkStrs (if r.2 then kidKinds else [kindName r.1]))))]
 
